@@ -57,7 +57,7 @@ fn compare(r: &mut Report, what: &str, bytes: &[u8], truth: &ClassFacts, got: &C
 
 /// (b) generated: the same spec under every knob setting must read to the facts it was built from
 pub fn stream_spec_knobs(ctx: &Ctx, r: &mut Report, rng: &mut Rng) {
-	let specs = if ctx.thorough { 300 } else { 40 };
+	let specs = if ctx.thorough { 150 } else { 40 };
 	let cfg = GenCfg::default();
 	for si in 0..specs {
 		let spec = gen_class(rng, &cfg);
@@ -187,7 +187,7 @@ fn g_code_in(code: &raw::CodeAttr) -> Option<String> {
 /// corpus: (b) facts against the independent parser, (c) code arrays through the Coq model
 pub fn stream_corpus(ctx: &Ctx, r: &mut Report) {
 	let classes = corpus::corpus_classes();
-	let mut coq_budget: usize = if ctx.thorough { 400_000 } else { 60_000 };   // bytes of class files turned into Coq cases
+	let mut coq_budget: usize = if ctx.thorough { 600_000 } else { 150_000 };   // bytes of class files turned into Coq cases
 	for (path, bytes) in &classes {
 		let parsed = raw::parse(bytes);
 		let Ok(rawc) = parsed else { r.count("corpus_rejected_by_independent_parser"); continue };
@@ -208,7 +208,7 @@ pub fn stream_corpus(ctx: &Ctx, r: &mut Report) {
 			Read::Ok(c) => {
 				compare(r, &what, bytes, &truth, &facts_from_duke(&c));
 				// (c) the same class through the model of the code reader
-				if bytes.len() <= 8000 && coq_budget >= bytes.len() {
+				if bytes.len() <= 20000 && coq_budget >= bytes.len() {
 					let with_code: Vec<&raw::CodeAttr> = rawc.methods.iter().filter_map(|m| m.attributes.iter().find_map(|a| if let AttrInfo::Code(c) = &a.info { Some(c) } else { None })).collect();
 					let dcodes: Vec<&duke::tree::method::code::Code> = c.methods.iter().filter_map(|m| m.code.as_ref()).collect();
 					if with_code.is_empty() || with_code.len() != dcodes.len() { r.count("corpus_coq_skipped_no_code"); continue; }
